@@ -1,15 +1,22 @@
 (* Codec.v — PostgreSQL text/binary encodings for the value types the model
    covers, as pgx v5.4.3's pgtype.Map.Encode / Codec.DecodeValue produce and
    accept them.  [encode_value] is the concrete instance of [cfg_encode]. *)
-Require Import Wire.Bytes Spec.BackendSpec Wire.Errors Wire.Framing Wire.Session.
+Require Import Wire.Bytes Spec.BackendSpec Wire.Errors Spec.ErrorFields Wire.Framing Wire.Session Wire.Transport Wire.Copy.
 Local Open Scope Z_scope.
 
 Definition oid_bool := 16.  Definition oid_bytea := 17.  Definition oid_int8 := 20.
 Definition oid_int2 := 21.  Definition oid_int4 := 23.   Definition oid_text := 25.
 Definition oid_varchar := 1043.
+Definition oid_uuid := 2950.  Definition oid_float4 := 700.  Definition oid_float8 := 701.
 
 Definition be64 (z : Z) : bytes :=
   let m := z mod 18446744073709551616 in be32 (m / 4294967296) ++ be32 m.
+
+(* uuid text form 8-4-4-4-12 *)
+Definition uuid_text (b : bytes) : bytes :=
+  let h := hex_of_bytes b in
+  firstn 8 h ++ [x2d] ++ firstn 4 (skipn 8 h) ++ [x2d] ++ firstn 4 (skipn 12 h) ++ [x2d] ++
+  firstn 4 (skipn 16 h) ++ [x2d] ++ skipn 20 h.
 
 Definition in_range (bits : Z) (z : Z) : bool := (- 2 ^ (bits - 1) <=? z) && (z <? 2 ^ (bits - 1)).
 
@@ -43,5 +50,53 @@ Definition encode_value (oid fmt : Z) (v : value) : encres :=
                if oid =? oid_bytea then
                  EncBytes (if fmt =? 0 then x5c :: x78 :: hex_of_bytes b else b)
                else EncErr
+           | VUuid b =>
+               if (oid =? oid_uuid) && (lenZ b =? 16) then
+                 EncBytes (if fmt =? 0 then uuid_text b else b)
+               else EncErr
+           | VFloat4 bits => if (oid =? oid_float4) && (fmt =? 1) then EncBytes (be32 bits) else EncErr
+           | VFloat8 bits => if (oid =? oid_float8) && (fmt =? 1) then EncBytes (be64 bits) else EncErr
            end
+  end.
+
+(* ---------- decoding (the independent decoder of C09 and the scanners of C14) ---------- *)
+Definition strip_dashes (t : bytes) : bytes := filter (fun b => negb (Byte.eqb b x2d)) t.
+Definition all_hex (t : bytes) : bool :=
+  forallb (fun b => let n := bN b in ((48 <=? n) && (n <=? 57) || (97 <=? n) && (n <=? 102))%N) t.
+
+Definition decode_text (oid : Z) (v : bytes) : option dval :=
+  if oid =? oid_bool then
+    match v with [b] => if Byte.eqb b x74 then Some (DBool true) else if Byte.eqb b x66 then Some (DBool false) else None | _ => None end
+  else if (oid =? oid_int2) || (oid =? oid_int4) || (oid =? oid_int8) then
+    match Spec.ErrorFields.atoi_text v with Some z => Some (DInt z) | None => None end
+  else if (oid =? oid_text) || (oid =? oid_varchar) then Some (DBytes v)
+  else if oid =? oid_bytea then
+    match v with
+    | a :: b :: r => if Byte.eqb a x5c && Byte.eqb b x78 && all_hex r && Nat.even (length r)
+                     then Some (DBytes (bytes_of_hex r)) else None
+    | _ => None
+    end
+  else if oid =? oid_uuid then
+    let h := strip_dashes v in
+    if (lenZ v =? 36) && (lenZ h =? 32) && all_hex h then Some (DBytes (bytes_of_hex h)) else None
+  else None.
+
+Definition decode_value (oid fmt : Z) (v : bytes) : option dval :=
+  if fmt =? 0 then decode_text oid v
+  else if (oid =? oid_float4) then (if lenZ v =? 4 then Some (DBytes v) else None)
+  else if (oid =? oid_float8) then (if lenZ v =? 8 then Some (DBytes v) else None)
+  else decode_binary oid v.
+
+(* what a written value must decode to *)
+Definition dval_of_value (v : value) : option dval :=
+  match v with
+  | VNil | VNilPtr | VInvalid => Some DNull
+  | VText s => Some (DBytes s)
+  | VInt2 z | VInt4 z | VInt8 z => Some (DInt z)
+  | VBool b => Some (DBool b)
+  | VBytea b => Some (DBytes b)
+  | VUuid b => Some (DBytes b)
+  | VFloat4 bits => Some (DBytes (be32 bits))
+  | VFloat8 bits => Some (DBytes (be64 bits))
+  | VUnenc => None
   end.
